@@ -32,6 +32,7 @@ def index_field(F):
 
 def run(ctx):
     _run(ctx)
+    ctx.delegate("C04", ["C04.agree"], "C14.index", "the index the iteration follows holds every entry of the .shx, in order", floor=2)
     ctx.delegate("C03", ["C03.stop"], "C14.counter",
                  "the tracked position the seek decision compares with is the real one: it advances by exactly the bytes of each "
                  "record read", floor=3)
